@@ -330,6 +330,12 @@ type c16Stream struct {
 	Lines   [][]byte `json:"lines"`
 	Frag    int      `json:"frag"`    // fragment size of the reader
 	Recycle int      `json:"recycle"` // every k-th value is recycled through the reuse channel after being read (0: none)
+	// NilReuse: no reuse channel is passed at all (only meaningful with Recycle 0)
+	NilReuse bool `json:"nil_reuse,omitempty"`
+	// Lead: white space written before line i (per line, cycled); 0..n spaces/tabs, so that chunks begin with white space
+	Lead []int `json:"lead,omitempty"`
+	// BlankBefore: an empty or white-space-only line is inserted before line i when BlankBefore[i%len] is true
+	BlankBefore []bool `json:"blank_before,omitempty"`
 }
 
 // scribbleReader hands out fragments from its own buffer and overwrites that buffer as soon as Read returns.
@@ -368,7 +374,15 @@ func (r *scribbleReader) Read(p []byte) (int, error) {
 func c16StreamCheck(c c16Stream) error {
 	var data []byte
 	var roots []*rj.Node
-	for _, l := range c.Lines {
+	for i, l := range c.Lines {
+		if len(c.BlankBefore) > 0 && c.BlankBefore[i%len(c.BlankBefore)] {
+			data = append(data, " \t\n"[i%3:]...)
+		}
+		if len(c.Lead) > 0 {
+			for k := 0; k < c.Lead[i%len(c.Lead)]; k++ {
+				data = append(data, " \t"[k%2])
+			}
+		}
 		data = append(data, l...)
 		data = append(data, '\n')
 		m, err := modelOf(l)
@@ -385,7 +399,11 @@ func c16StreamCheck(c c16Stream) error {
 	reuse := make(chan *simdjson.ParsedJson, 4)
 	stop := watchdog(hangLimit(), "C16 stream")
 	defer stop()
-	simdjson.ParseNDStream(&scribbleReader{data: append([]byte(nil), data...), frag: frag}, res, reuse)
+	if c.NilReuse && c.Recycle == 0 {
+		simdjson.ParseNDStream(&scribbleReader{data: append([]byte(nil), data...), frag: frag}, res, nil)
+	} else {
+		simdjson.ParseNDStream(&scribbleReader{data: append([]byte(nil), data...), frag: frag}, res, reuse)
+	}
 	var held []*simdjson.ParsedJson
 	var heldCanon [][]byte
 	var got []byte
@@ -545,6 +563,13 @@ func TestC16_Stream(t *testing.T) {
 		}
 		c.Frag = rapid.IntRange(1, 200).Draw(t, "frag")
 		c.Recycle = rapid.IntRange(0, 3).Draw(t, "recycle")
+		c.NilReuse = rapid.Bool().Draw(t, "nilreuse")
+		if rapid.Bool().Draw(t, "leadws") {
+			c.Lead = rapid.SliceOfN(rapid.IntRange(0, 5), 1, 4).Draw(t, "lead")
+		}
+		if rapid.IntRange(0, 2).Draw(t, "blanks") == 0 {
+			c.BlankBefore = rapid.SliceOfN(rapid.Bool(), 1, 4).Draw(t, "blankbefore")
+		}
 		c16StreamRun(t, c)
 		b, _ := json.Marshal(c)
 		col("C16").Eval(n >= 2, evidHash(b), "kind:stream", fmt.Sprintf("recycle:%d", c.Recycle))
